@@ -4,6 +4,7 @@ import LeptosModel.Proofs.KeyedFinal
 import LeptosModel.Proofs.KeyedBuild
 import LeptosModel.Proofs.KeyedExact
 import LeptosModel.Proofs.KeyedRepair
+import LeptosModel.Proofs.KeyedNested
 /-!
 # C11 — keyed lists keep item identity and end in the new order
 
@@ -29,6 +30,8 @@ theorems about them stay as regression theorems.
 | `C11_settled_monotone` | full: the repaired `diff` never lets a resting item overtake another one |
 | `C11_dom_order` | **full** (no hypothesis beyond the state invariants) — since the repair |
 | `C11_history`, `C11_history_dom_order` | full, every step of every history |
+| `C11_build_detached`, `C11_rebuild_unmounted`, `C11_mount_before_sibling`, `C11_unmount`, `C11_insert_before_this`, `C11_life_cycle` | full: a list that is built, rebuilt without being in the DOM (no parent yet, or the stale parent kept by `unmount`), mounted before any existing sibling, updated, unmounted, … |
+| `C11_nested_inner_update`, `C11_nested_outer_update` | full: a keyed list as an item of a keyed list, updated on its own / moved as a block |
 | `C11_dom_order_old_witness` | regression: the code before the repair: `[0,1,2] → [4,3,2,1,0]` ends as 1,4,3,2,0 |
 | `C11_dom_order_old_iff` | regression: before the repair the order was right IFF `settledMonotone diffOld` |
 -/
@@ -250,6 +253,201 @@ theorem C11_history_dom_order (s : KState) (tos : List (List Key)) (pre post : L
       have hwf := (C11_storage_is_to s t0 hs ht0).2.2.2.2
       have hmo := (C11_dom_order s t0 pre post hs hm ht0).2
       exact ih (rebuild s t0) hwf hmo (fun t' ht' => hto t' (by simp [ht'])) ts₁ ts₂ rfl
+
+/-! ## the list outside the DOM: built, rebuilt, mounted before a sibling, unmounted
+
+`Keyed::build` leaves `parent = None`; `rebuild` then only updates the stored items. `mount(parent, anchor)`
+inserts every block in order before the anchor (an existing sibling — what `Either` / `Show` /
+`EitherKeepAlive` do when they switch to the list — or `None` = append) and records the parent. `unmount`
+takes the blocks and the marker out but keeps the parent: a `rebuild` before the next `mount` still runs the
+DOM half of `apply_diff`, and every insertion fails without effect (`insertBefore` with a reference that is
+not a child). `C11_storage_is_to`, `C11_identity`, `C11_set_index`, `C11_history` need `Wf` only, so they
+hold in all these states. Items are blocks of ≥ 1 nodes of ANY kind (elements, text nodes, the placeholders
+of `()` / `None` members, the nodes and marker of a fragment or of a nested keyed list): the model and the
+theorems never look at the kind of a node. -/
+
+/-- `build`: `Wf`, not in the DOM (`Detached`), no parent, the parent's children untouched -/
+theorem C11_build_detached (bs : Nat) (keys : List Key) (kids : List NodeId) (next : Nat) (hbs : 0 < bs)
+    (hk : keys.Nodup) (hkids : kids.Nodup) (hfr : ∀ n ∈ kids, n < next) :
+    Wf (build bs keys kids next) ∧ Detached (build bs keys kids next) ∧
+    (build bs keys kids next).parent = false ∧ (build bs keys kids next).w.kids = kids :=
+  build_detached bs keys kids next hbs hk hkids hfr
+
+/-- **`rebuild` while the list is not in the DOM** (whether it has no parent yet or still holds the one it was
+unmounted from): the parent's children are untouched, the list stays out of the DOM and well-formed — and
+storage, identity, builds, unmounts, `set_index` are as always (`rebuild_summary`) -/
+theorem C11_rebuild_unmounted (s : KState) (to : List Key) (hs : Wf s) (hd : Detached s) (hto : to.Nodup) :
+    (rebuild s to).w.kids = s.w.kids ∧ Detached (rebuild s to) ∧ Wf (rebuild s to) ∧
+    Summary s.hashed to (somes s.w.storage) (rebuild s to).w :=
+  ⟨(rebuildWith_detached diff diffLike_diff s to hs hd hto).2, (rebuildWith_detached diff diffLike_diff s to hs hd hto).1,
+    (C11_storage_is_to s to hs hto).2.2.2.2, rebuild_summary s to hs hto⟩
+
+/-- **`mount(parent, anchor)`**: with the siblings `pre ++ post` in the parent and the anchor `post.head?`
+(`None` iff `post = []`), the list ends `Mounted pre post` — all blocks in storage order, then the marker,
+directly before the anchor — and has a parent -/
+theorem C11_mount_before_sibling (s : KState) (pre post : List NodeId) (hs : Wf s) (hd : Detached s)
+    (hk : s.w.kids = pre ++ post) :
+    Wf (s.mount post.head?) ∧ Mounted pre post (s.mount post.head?) :=
+  mount_mounted s pre post hs hd hk
+
+/-- **`unmount`**: the parent's children are the siblings alone; the list is `Detached` and keeps its items -/
+theorem C11_unmount (s : KState) (pre post : List NodeId) (hs : Wf s) (hm : Mounted pre post s) :
+    Wf s.unmount ∧ Detached s.unmount ∧ s.unmount.w.kids = pre ++ post ∧
+    s.unmount.w.storage = s.w.storage ∧ s.unmount.parent = s.parent :=
+  unmount_detached s pre post hs hm
+
+/-- **`insert_before_this(child)`** (how a preceding `Either` / `Show` puts its new content in front of the
+list): on a mounted list the child becomes the last leading sibling, directly in front of the first node of
+the first item (or of the marker if the list is empty); a list that is not in the DOM answers `false` and
+inserts nothing -/
+theorem C11_insert_before_this (s : KState) (pre post : List NodeId) (child : NodeId) (hs : Wf s)
+    (hm : Mounted pre post s) (hc : child ∉ s.w.kids) (hcn : child < s.w.next) :
+    (s.insertBeforeThis child).2 = true ∧ Wf (s.insertBeforeThis child).1 ∧
+    Mounted (pre ++ [child]) post (s.insertBeforeThis child).1 :=
+  insertBeforeThis_mounted s pre post child hs hm hc hcn
+
+theorem C11_insert_before_this_unmounted (s : KState) (child : NodeId) (hd : Detached s) :
+    s.insertBeforeThis child = (s, false) :=
+  insertBeforeThis_detached s child hd
+
+/-- the operations of a list's life -/
+inductive LifeOp where
+  | update (to : List Key)
+  | unmount
+  /-- `mount` before the `k`-th of the siblings (`k = sibs.length`: append) -/
+  | mount (k : Nat)
+
+def lifeStep (sibs : List NodeId) (s : KState) : LifeOp → KState
+  | .update to => rebuild s to
+  | .unmount => s.unmount
+  | .mount k => s.mount (sibs.drop k).head?
+
+/-- where the list is: `none` = not in the DOM, `some k` = mounted before the `k`-th sibling -/
+def lifePos (p : Option Nat) : LifeOp → Option Nat
+  | .update _ => p
+  | .unmount => none
+  | .mount k => some k
+
+/-- updates are duplicate-free, `unmount` acts on a mounted list, `mount` on one that is not in the DOM -/
+def lifeOk (sibs : List NodeId) (p : Option Nat) : LifeOp → Bool
+  | .update to => decide to.Nodup
+  | .unmount => p.isSome
+  | .mount k => p.isNone && decide (k ≤ sibs.length)
+
+/-- the invariant: mounted between the siblings at position `k`, or out of the DOM with the siblings alone in
+the parent -/
+def LifeInv (sibs : List NodeId) (s : KState) : Option Nat → Prop
+  | some k => Wf s ∧ Mounted (sibs.take k) (sibs.drop k) s
+  | none => Wf s ∧ Detached s ∧ s.w.kids = sibs
+
+theorem lifeStep_inv (sibs : List NodeId) (s : KState) (p : Option Nat) (op : LifeOp)
+    (h : LifeInv sibs s p) (hok : lifeOk sibs p op = true) :
+    LifeInv sibs (lifeStep sibs s op) (lifePos p op) := by
+  cases op with
+  | update to =>
+    have hto : to.Nodup := by simpa [lifeOk] using hok
+    cases p with
+    | some k =>
+      exact ⟨(C11_storage_is_to s to h.1 hto).2.2.2.2, (C11_dom_order s to _ _ h.1 h.2 hto).2⟩
+    | none =>
+      obtain ⟨h1, h2, h3, _⟩ := C11_rebuild_unmounted s to h.1 h.2.1 hto
+      exact ⟨h3, h2, h1.trans h.2.2⟩
+  | unmount =>
+    cases p with
+    | some k =>
+      obtain ⟨h1, h2, h3, _, _⟩ := C11_unmount s _ _ h.1 h.2
+      exact ⟨h1, h2, by show s.unmount.w.kids = sibs; rw [h3, List.take_append_drop]⟩
+    | none => simp [lifeOk] at hok
+  | mount k =>
+    cases p with
+    | some _ => simp [lifeOk] at hok
+    | none =>
+      exact C11_mount_before_sibling s (sibs.take k) (sibs.drop k) h.1 h.2.1
+        (by rw [h.2.2, List.take_append_drop])
+
+/-- **the whole life of a list**: from `build` on, through any sequence of updates (duplicate-free keys),
+`unmount`s and `mount`s before any existing sibling, the list is — at every step — either mounted in order at
+its current place or out of the DOM with the siblings untouched, and always `Wf` (so storage / identity /
+`set_index` hold at every step) -/
+theorem C11_life_cycle (sibs : List NodeId) : ∀ (ops : List LifeOp) (s : KState) (p : Option Nat),
+    LifeInv sibs s p →
+    (∀ (i : Nat) (ops₁ : List LifeOp) (op : LifeOp) (ops₂ : List LifeOp), ops = ops₁ ++ op :: ops₂ →
+      i = ops₁.length → lifeOk sibs (ops₁.foldl lifePos p) op = true) →
+    LifeInv sibs (ops.foldl (lifeStep sibs) s) (ops.foldl lifePos p)
+  | [], _, _, h, _ => h
+  | op :: ops, s, p, h, hok => by
+    have h1 := lifeStep_inv sibs s p op h (hok 0 [] op ops rfl rfl)
+    exact C11_life_cycle sibs ops _ _ h1 (fun i ops₁ op' ops₂ he hi =>
+      hok (i + 1) (op :: ops₁) op' ops₂ (by rw [he]; rfl) (by simp [hi]))
+
+/-- non-vacuity: built with siblings in the parent, rebuilt twice while out of the DOM, mounted before the
+second sibling, updated, unmounted, rebuilt (stale parent), mounted at the end, cleared -/
+example : ∃ (sibs : List NodeId) (s : KState) (ops : List LifeOp),
+    LifeInv sibs s none ∧ s.parent = false ∧
+    (∀ (i : Nat) (ops₁ : List LifeOp) (op : LifeOp) (ops₂ : List LifeOp), ops = ops₁ ++ op :: ops₂ →
+      i = ops₁.length → lifeOk sibs (ops₁.foldl lifePos none) op = true) ∧
+    ops.foldl lifePos none = some 3 ∧ ops.length = 9 := by
+  refine ⟨[100, 101, 102], build 2 [0, 1, 2] [100, 101, 102] 103,
+    [.update [2, 0, 3], .update [3, 2, 0], .mount 1, .update [0, 4, 2], .unmount, .update [2, 5, 0], .mount 3,
+      .update [5, 0], .update []], ?_, rfl, ?_, rfl, rfl⟩
+  · obtain ⟨h1, h2, _, h4⟩ := C11_build_detached 2 [0, 1, 2] [100, 101, 102] 103 (by decide) (by decide) (by decide)
+      (by decide)
+    exact ⟨h1, h2, h4⟩
+  · intro i ops₁ op ops₂ he hi
+    -- nine positions: check each
+    match ops₁, he with
+    | [], he => simp at he; obtain ⟨rfl, _⟩ := he; decide
+    | [_], he => simp at he; obtain ⟨rfl, rfl, _⟩ := he; decide
+    | [_, _], he => simp at he; obtain ⟨rfl, rfl, rfl, _⟩ := he; decide
+    | [_, _, _], he => simp at he; obtain ⟨rfl, rfl, rfl, rfl, _⟩ := he; decide
+    | [_, _, _, _], he => simp at he; obtain ⟨rfl, rfl, rfl, rfl, rfl, _⟩ := he; decide
+    | [_, _, _, _, _], he => simp at he; obtain ⟨rfl, rfl, rfl, rfl, rfl, rfl, _⟩ := he; decide
+    | [_, _, _, _, _, _], he => simp at he; obtain ⟨rfl, rfl, rfl, rfl, rfl, rfl, rfl, _⟩ := he; decide
+    | [_, _, _, _, _, _, _], he => simp at he; obtain ⟨rfl, rfl, rfl, rfl, rfl, rfl, rfl, rfl, _⟩ := he; decide
+    | [_, _, _, _, _, _, _, _], he =>
+      simp at he; obtain ⟨rfl, rfl, rfl, rfl, rfl, rfl, rfl, rfl, rfl, _⟩ := he; decide
+    | _ :: _ :: _ :: _ :: _ :: _ :: _ :: _ :: _ :: _, he =>
+      have := congrArg List.length he
+      simp at this
+
+/-! ## a keyed list as an item of a keyed list -/
+
+/-- **inner update**: the outer item `x` is the inner list `i` (its block = the inner items' blocks, then the
+inner marker). After `rebuild` of the inner list with any duplicate-free keys, the inner list is mounted in
+order inside the outer one, and the outer list — `x` now owning the new inner region — is again `Wf` and
+`Mounted` between the same siblings: for the outer list the inner update is the replacement of one block by
+another one at the same place. -/
+theorem C11_nested_inner_update (s : KState) (pre post : List NodeId) (A B : List Item) (x : Item) (i : KState)
+    (to : List Key) (hs : Wf s) (hm : Mounted pre post s) (hsplit : somes s.w.storage = A ++ x :: B)
+    (hi : IsInner s x i) (hiw : Wf i) (hne : ∀ z ∈ somes i.w.storage, z.nodes ≠ []) (hbs : 0 < i.bs)
+    (hp : i.parent = true) (hto : to.Nodup) :
+    Wf (withInner s A B x (rebuild i to)) ∧ Mounted pre post (withInner s A B x (rebuild i to)) ∧
+    Mounted (pre ++ blocks A) (blocks B ++ s.marker :: post) (rebuild i to) :=
+  nested_inner_update s pre post A B x i to hs hm hsplit hi hiw hne hbs hp hto
+
+/-- **outer update**: the nested lists move as blocks; a retained one is the same item and is, in the new
+parent state, mounted in order in its new surroundings -/
+theorem C11_nested_outer_update (s : KState) (pre post : List NodeId) (x : Item) (i : KState) (to : List Key)
+    (hs : Wf s) (hm : Mounted pre post s) (hx : x ∈ somes s.w.storage) (hi : IsInner s x i)
+    (hne : ∀ z ∈ somes i.w.storage, z.nodes ≠ []) (hbs : 0 < i.bs) (hp : i.parent = true)
+    (hto : to.Nodup) (hk : x.key ∈ to) :
+    Mounted pre post (rebuild s to) ∧
+    ∃ A' B', somes (rebuild s to).w.storage = A' ++ x :: B' ∧
+      Mounted (pre ++ blocks A') (blocks B' ++ s.marker :: post)
+        { i with w := { i.w with kids := (rebuild s to).w.kids, next := (rebuild s to).w.next } } :=
+  nested_outer_update s pre post x i to hs hm hx hi hne hbs hp hto hk
+
+/-- non-vacuity: an outer list of three items, the middle one an inner list `[0, 1]` with its marker -/
+example : ∃ (s : KState) (A B : List Item) (x : Item) (i : KState),
+    Wf s ∧ Mounted [] [] s ∧ somes s.w.storage = A ++ x :: B ∧ IsInner s x i ∧ Wf i ∧
+    (∀ z ∈ somes i.w.storage, z.nodes ≠ []) ∧ 0 < i.bs ∧ i.parent = true ∧ A ≠ [] ∧ B ≠ [] :=
+  ⟨(build 3 [0, 1, 2] [] 0).mount none, [⟨0, [0, 1, 2]⟩], [⟨2, [6, 7, 8]⟩], ⟨1, [3, 4, 5]⟩,
+    { marker := 5, hashed := [0, 1], bs := 1, parent := true,
+      w := { kids := ((build 3 [0, 1, 2] [] 0).mount none).w.kids,
+             storage := [some ⟨0, [3]⟩, some ⟨1, [4]⟩], next := ((build 3 [0, 1, 2] [] 0).mount none).w.next } },
+    ⟨by decide, by decide, by decide⟩, ⟨by decide, by decide, by decide, by decide, by decide, by decide⟩,
+    by decide, ⟨by decide, by decide, by decide⟩, ⟨by decide, by decide, by decide⟩, by decide, by decide,
+    by decide, by decide, by decide⟩
 
 /-! ## regression: the code before the repair (finding F-C11-1) -/
 
